@@ -31,10 +31,14 @@ PROP_ID = "C17"
 DESIGN_REF = "6/C17"
 LEVEL_TEXT = "partial"
 LEVEL_NOTE = (
-    "proof for the modelled cores (DefinitionsMapper, detect_lazy_namespace, Config.from_service, "
-    "Client.prepare_headers/prepare_payload/send, DefaultTransport.handle_response); XML rendering/parsing of the "
-    "envelope classes is C01's model and is only exercised end to end here (oracle), the schema half of the "
-    "pipeline (SchemaMapper, class processing other than the lazy-namespace decision) is not modelled"
+    "proof for the modelled cores (DefinitionsMapper, the late namespace decision, Config.from_service, "
+    "Client.prepare_headers/prepare_payload/send, DefaultTransport.handle_response) and, tied to C01's writer and "
+    "parser model, for the request document: the envelope class family (Envelope/Header/Body/Fault/detail) is "
+    "modelled down to the XmlMeta the binding layer sees (rendering + XmlMetaBuilder, compared with the real "
+    "generated classes) and request_document_shape proves that a request written and read back has exactly the "
+    "prescribed Header/Body children. Payload classes (the schema half: SchemaMapper and class processing other "
+    "than the late namespace decision) enter as arbitrary classes of C01's fragment F1; the code is as repaired by "
+    "repo-patches/c17c-01, c17c-02 (pending); one finding (rpc response wrapper name) stays listed"
 )
 TRUSTED = [
     "DefinitionsParser/XmlParser populate Definitions (ns_map, location, QName-valued wildcard attributes) as recorded by harness/wsdlgen.defs_to_record; the model starts from that record",
@@ -48,6 +52,7 @@ ASSUMPTIONS = [
     "a document-style part declared by type has no wire name prescribed by WSDL 1.1 (the body *is* of that type); the property's reading 'typed parts -> part name' is used, namespace unchecked",
     "the rpc response wrapper is named <operation>Response (WS-I BP 1.1 R2729; WSDL 1.1 3.5 read literally says <operation>); either is accepted by the full-strength statement",
     "names are non-empty strings; split_qname('') (IndexError in the code) is outside the model",
+    "Wsdl/Binding.lean names vars and classes by their XML names (python identifiers are C07's subject); the real export is renamed accordingly by harness/wsdlbind.py",
 ]
 RULE = "hand-picked (upstream fixtures, every branch), bounded-exhaustive decision tables, seeded random specs parsed by the real DefinitionsParser, mutated (dangling/malformed) records; non-trivial = reaches a non-default branch (see distribution)"
 
@@ -255,7 +260,7 @@ def gen_map(rng, tier):
         yield {"defs": r}
         for _ in range(6):
             yield {"defs": mutate_record(rng, r)}
-    for i in range(n_cases(tier, 110, 9000)):
+    for i in range(n_cases(tier, 110, 7000)):
         s = G.gen_spec(rng, oneway=0.1)
         if rng.random() < 0.2:
             s["transport"] = rng.choice([None, "http://other", SOAP + "/"])
